@@ -171,6 +171,42 @@ def relocate_stream(rng, pid, kinds=ALL_KINDS):
     return out
 
 
+def fat_stream(rng, pid, big_ones=True):
+    """large element types: 128-byte elements with a destructor through every life-cycle of the consuming kinds and the slice
+    (also under cloned() / copied()), and a few cases with 64 KiB elements and chunk sizes above a thousand (so that
+    `chunk size * size_of::<T>()` passes every plausible byte threshold: 16 MiB, 64 MiB)"""
+    out = []
+    i = 0
+    for kind in ("array", "vec", "slice", "iter"):
+        for n in (3, 6, 8):
+            for pre in (0, 1, n // 2, n):
+                for mid in (["chunk 2 1"], ["bufnew 3", "bufnext 1", "bufnext all"], ["skip"], []):
+                    c = make_source(rng, "%s-fat%d" % (pid, i), kind, n, hint=rng.choice(["exact", "inexact"]))
+                    c.fat = 128
+                    c.threads = [["next"] * pre + list(mid)]
+                    if rng.random() < 0.4:
+                        c.threads.append(["next", "chunk 2 all"])
+                        c.sched = rand_sched(rng, 2, 10)
+                    c.owner = rng.choice(["drop", "intoseq all", "intoseq 1"])
+                    if kind == "slice" and i % 3 == 0:
+                        c.adapt = rng.choice(["cloned", "copied"])
+                    out.append(c)
+                    i += 1
+    if big_ones:
+        L = 1100
+        for (kind, adapt, prog) in (("iter", "none", ["chunk 1050 0", "next", "chunk 1050 1"]), ("slice", "copied", ["bufnew 1050", "bufnext 0", "bufnext 1"]),
+                                    ("vec", "none", ["chunk 1050 1", "bufnew 1040", "bufnext 0"]), ("slice", "cloned", ["foreach 1050"]), ("iter", "none", ["bufnew 1050", "bufnext 0", "bufnext 0"])):
+            if kind == "iter":
+                c = Case("%s-fatbig%d" % (pid, i), "iter", script=["S%d" % (5000 + j) for j in range(L)], hint="inexact", owner="drop")
+            else:
+                c = Case("%s-fatbig%d" % (pid, i), kind, vals=[5000 + j for j in range(L)], adapt=adapt, owner="drop")
+            c.fat = 65536
+            c.threads = [list(prog)]
+            out.append(c)
+            i += 1
+    return out
+
+
 def nested_stream(rng, pid, n=60):
     """two wrappers nested on the same threads: the iterator under test wraps the sequential view `values()` of an inner concurrent
     iterator over the probe (so a pull of the outer one pulls from the inner one from inside its wrapped `next()`).
@@ -939,13 +975,13 @@ def stream_for0(pid, tier, seed):
     big = tier != "quick"
     if pid in ("C01", "C02", "C04"):
         return defects + pulls_stream(rng, tier, pid) + half_stream(rng, pid) + nth_stream(rng, pid) + liar_stream(rng, pid) + zst_stream(rng, pid) + pod_stream(rng, pid) + \
-            wrapper_nth_stream(rng, pid) + last_stream(rng, pid) + forget_stream(rng, pid) + relocate_stream(rng, pid) + stall_stream(rng, pid) + reenter_stream(rng, pid) + many_threads_stream(rng, pid) + long_chunk_stream(rng, pid) + nested_stream(rng, pid) + \
+            wrapper_nth_stream(rng, pid) + last_stream(rng, pid) + forget_stream(rng, pid) + relocate_stream(rng, pid) + stall_stream(rng, pid) + reenter_stream(rng, pid) + many_threads_stream(rng, pid) + long_chunk_stream(rng, pid) + nested_stream(rng, pid) + fat_stream(rng, pid) + \
             [c for c in inpanic_stream(rng, pid) if "P" not in (c.script or [])]
     if pid == "C03":
         cases = defects + pulls_stream(rng, tier, pid, prof=dict(loops=False, query=False, drain=0.2))
         cases += half_stream(rng, pid) + nth_stream(rng, pid) + liar_stream(rng, pid) + zst_stream(rng, pid) + pod_stream(rng, pid)
         # a chunk pull in flight while another thread skips: the chunk it had reserved is still delivered in full
-        cases += inflight_stream(rng, pid, tier) + last_stream(rng, pid) + forget_stream(rng, pid)
+        cases += inflight_stream(rng, pid, tier) + last_stream(rng, pid) + forget_stream(rng, pid) + fat_stream(rng, pid)
         # chunk sizes beyond 2^16 (quick) and beyond 2^20 (thorough: a wrapped iterator of 2^20 + 50 elements) on the buffered path
         c = Case("C03-big0", "iter", script=["S%d" % (1000 + j) for j in range(70007)], hint="inexact", owner="drop")
         c.threads = [["bufnew 66000", "bufnext 0", "bufnext 1", "bufnext 0"]]
@@ -1068,7 +1104,7 @@ def stream_for0(pid, tier, seed):
         cases += droppanic_stream(rng, tier, pid) + zst_stream(rng, pid) + closure_panic_stream(rng, pid) + next_then_nth_stream(rng, pid, kinds=("vec", "array", "iter"))
         cases += spare_stream(rng, pid) + probe_panic_ledger_stream(rng, pid) + bigarr_stream(rng, pid)
         cases += [c for c in inpanic_stream(rng, pid) if c.kind in ("vec", "array", "iter") and "P" not in (c.script or [])]
-        cases += relocate_stream(rng, pid, kinds=("vec", "array", "iter"))
+        cases += relocate_stream(rng, pid, kinds=("vec", "array", "iter")) + [c for c in fat_stream(rng, pid) if c.kind != "slice"]
         # empty chunk requests (legal for one-shot pulls: they take nothing) between ordinary pulls, at every progress point
         j = 0
         for kind in ("vec", "array", "iter"):
@@ -1161,6 +1197,10 @@ def stream_for0(pid, tier, seed):
         for c in exhaustive("C13-x2", small_bases(rng, progs, ["slice", "iterref"]), 2, 8 if not big else 11):
             c.adapt = "cloned" if (len(cases) % 2) else "copied"
             cases.append(c)
+        # large elements under the adaptors (chunk boundaries must not depend on the element size)
+        for c in fat_stream(rng, pid):
+            if c.kind == "slice" and c.adapt != "none":
+                cases.append(c)
         # the underlying reference-yielding iterator, driven with the same case (lock-step twin)
         twins = []
         for c in cases:
